@@ -537,3 +537,27 @@ func definedIn(v ssa.Value, blocks []*ssa.BasicBlock) bool {
 	}
 	return false
 }
+
+// assignsLocal: does any instruction of fn define a value for the source-level variable `name` (a debug reference,
+// a phi or a stack slot carrying that name)?
+func assignsLocal(fn *ssa.Function, name string) bool {
+	for _, b := range fn.Blocks {
+		for _, ins := range b.Instrs {
+			switch x := ins.(type) {
+			case *ssa.DebugRef:
+				if id, ok := x.Expr.(*ast.Ident); ok && id.Name == name {
+					return true
+				}
+			case *ssa.Phi:
+				if x.Comment == name {
+					return true
+				}
+			case *ssa.Alloc:
+				if x.Comment == name {
+					return true
+				}
+			}
+		}
+	}
+	return false
+}
